@@ -49,12 +49,34 @@ def Ab (s : Sender.St) (mv : List Sender.Chunk) (j : Nat) : Prop := ∀ m, mv[j]
 def Cov (t0 : BitVec 32) (s : Sender.St) (mv : List Sender.Chunk) (A : Nat) (nc : BitVec 32) : Prop :=
   ∃ n, nc = t0 + BitVec.ofNat 32 n ∧ n < mv.length ∧ ∀ j, j ≤ n → Ab s mv j ∨ j < A
 
+/-- every entry of a FORWARD-TSN / I-FORWARD-TSN names an abandoned moved chunk at or below its new cumulative TSN
+(FORWARD-TSN: an ORDERED chunk, by stream and SSN; I-FORWARD-TSN: by stream, U flag and MID) -/
+def Ent (s : Sender.St) (mv : List Sender.Chunk) : Sender.Fwd → Prop
+  | .fwd nc es => ∀ e ∈ es, ∃ m ∈ mv, s.abandoned m = true ∧ Gen.sna32LTE m.tsn nc = true ∧
+      m.unordered = false ∧ m.si = e.1 ∧ m.ssn = e.2
+  | .ifwd nc es => ∀ e ∈ es, ∃ m ∈ mv, s.abandoned m = true ∧ Gen.sna32LTE m.tsn nc = true ∧
+      (m.si, m.unordered) = e.1 ∧ m.mid = e.2
+
 structure Inv (P : Params) (σ : St) (mv : List Sender.Chunk) (G : List (BitVec 32)) (a : Nat) (R : RecvQ.St) : Prop where
   snd : SenderPR.SInv P.tsn σ.snd mv a
   rcv : ReceiverPR.RInv P.tsn σ.rcv R mv.length (Ab σ.snd mv) G
   ale : a ≤ R.h.A
   wdata : ∀ c, Item.data c ∈ σ.wire → FromMoved mv c
   wfwd : ∀ f, Item.fwd f ∈ σ.wire → Cov P.tsn σ.snd mv R.h.A (fwdCum f)
+  went : ∀ f, Item.fwd f ∈ σ.wire → Ent σ.snd mv f
+
+theorem Ent.mono {s s' : Sender.St} {mv mv' : List Sender.Chunk} {f : Sender.Fwd}
+    (hab : AbLe s s') (hmv : ∃ x, mv' = mv ++ x) (h : Ent s mv f) : Ent s' mv' f := by
+  obtain ⟨x, rfl⟩ := hmv
+  cases f with
+  | fwd nc es =>
+    intro e he
+    obtain ⟨m, hm, h1, h2⟩ := h e he
+    exact ⟨m, List.mem_append_left _ hm, hab.abandoned rfl h1, h2⟩
+  | ifwd nc es =>
+    intro e he
+    obtain ⟨m, hm, h1, h2⟩ := h e he
+    exact ⟨m, List.mem_append_left _ hm, hab.abandoned rfl h1, h2⟩
 
 theorem Ab.mono {s s' : Sender.St} {mv mv' : List Sender.Chunk} (hab : AbLe s s') (hmv : ∃ x, mv' = mv ++ x) {j : Nat}
     (hj : j < mv.length) (h : Ab s mv j) : Ab s' mv' j := by
@@ -143,7 +165,7 @@ theorem Inv.sndStep {P : Params} {σ : St} {mv : List Sender.Chunk} {G : List (B
       bv_omega
   obtain ⟨W, hW⟩ := h.snd.minv
   obtain ⟨_, _, hem⟩ := step_minv σ.snd o hW
-  refine ⟨a', hs', ?_, hale', ?_, ?_⟩
+  refine ⟨a', hs', ?_, hale', ?_, ?_, ?_⟩
   · exact h.rcv.mono (by rw [List.length_append]; omega) (fun j hj hab => Ab.mono habLe hpre hj hab) (fun x hx => hx)
   · intro c hc
     rcases List.mem_append.1 hc with hc | hc
@@ -179,6 +201,40 @@ theorem Inv.sndStep {P : Params} {σ : St} {mv : List Sender.Chunk} {G : List (B
         rcases c3 j m hj hm with h' | h'
         · exact h'
         · omega
+  · intro f hf
+    rcases List.mem_append.1 hf with hf | hf
+    · exact (h.went f hf).mono habLe hpre
+    · obtain ⟨orc, sel, rfl, hfw⟩ := emits_fwd σ.snd o f hf
+      have hest : σ.snd.established = true := by
+        cases he : σ.snd.established with
+        | true => rfl
+        | false =>
+          have : (Sender.gather σ.snd orc sel).2.fwd = none := by
+            unfold Sender.gather; simp [he]
+          rw [this] at hfw; cases hfw
+      have hfe := (gather_fwd σ.snd orc sel hest).2 f hfw
+      obtain ⟨_, _, r3, _, _⟩ := gather_grel σ.snd orc sel
+      have hsc := hs'.scanned
+      have hadv : (Sender.step σ.snd (.gather orc sel)).advPeerAck = σ.snd.advPeerAck := r3
+      rw [hadv] at hsc
+      rw [hfe]
+      split
+      · intro e he
+        obtain ⟨c, hc, c1, c2⟩ := (ifwdStreams_spec _).2.1 e he
+        obtain ⟨m, hm, m1, m2, m3⟩ := hsc c hc
+        have f1 := congrArg (fun x => x.1) m3
+        have f2 := congrArg (fun x => x.2.2.2.1) m3
+        have f3 := congrArg (fun x => x.2.2.2.2.2.2.2.1) m3
+        simp only [Chunk.frag] at f1 f2 f3
+        exact ⟨m, hm, m1, m2, by rw [f1, f2]; exact c1, by rw [f3]; exact c2⟩
+      · intro e he
+        obtain ⟨c, hc, c1, c2, c3⟩ := (fwdStreams_spec _).2.1 e he
+        obtain ⟨m, hm, m1, m2, m3⟩ := hsc c hc
+        have f1 := congrArg (fun x => x.1) m3
+        have f2 := congrArg (fun x => x.2.2.2.1) m3
+        have f3 := congrArg (fun x => x.2.2.2.2.2.2.1) m3
+        simp only [Chunk.frag] at f1 f2 f3
+        exact ⟨m, hm, m1, m2, by rw [f2]; exact c1, by rw [f1]; exact c2, by rw [f3]; exact c3⟩
 
 /-! ## receiver operations -/
 
@@ -258,7 +314,7 @@ theorem Inv.itemStep {P : Params} {σ : St} {mv : List Sender.Chunk} {G : List (
       have hc := inFwd_cases σ.rcv f
       have := h.rcv.fwdStep hN (inFwd f) (fwdCum f) hc.1 hc.2 n c2 c1 c3
       simpa [pushedOne, inChunk] using this
-  refine ⟨h.snd, hrcv, by have := h.ale; omega, h.wdata, fun f hf => (h.wfwd f hf).mono (AbLe.refl _) ⟨[], by simp⟩ hmono⟩
+  refine ⟨h.snd, hrcv, by have := h.ale; omega, h.wdata, fun f hf => (h.wfwd f hf).mono (AbLe.refl _) ⟨[], by simp⟩ hmono, h.went⟩
 
 theorem pick_mem (w : List Item) (is : List (Nat × Bool)) : ∀ x ∈ pick w is, x.1 ∈ w := by
   intro x hx
@@ -293,12 +349,12 @@ theorem Inv.itemsStep {P : Params} (xs : List (Item × Bool)) :
 
 theorem Inv.setRcv {P : Params} {σ : St} {mv : List Sender.Chunk} {G : List (BitVec 32)} {a : Nat} {R : RecvQ.St}
     (h : Inv P σ mv G a R) (r : Receiver.St) (hpq : r.pq = σ.rcv.pq) : Inv P { σ with rcv := r } mv G a R :=
-  ⟨h.snd, h.rcv.same_pq r hpq, h.ale, h.wdata, h.wfwd⟩
+  ⟨h.snd, h.rcv.same_pq r hpq, h.ale, h.wdata, h.wfwd, h.went⟩
 
 theorem Inv.otherStep {P : Params} {σ : St} {mv : List Sender.Chunk} {G : List (BitVec 32)} {a : Nat} {R : RecvQ.St}
     (h : Inv P σ mv G a R) (ro : Receiver.Op) (hop : ∀ cs, ro ≠ .pkt cs) :
     ∃ a' R', Inv P { σ with rcv := Receiver.step σ.rcv ro } mv G a' R' := by
-  refine ⟨a, _, h.snd, (h.rcv.other ro hop).1, ?_, h.wdata, ?_⟩
+  refine ⟨a, _, h.snd, (h.rcv.other ro hop).1, ?_, h.wdata, ?_, h.went⟩
   · rw [(h.rcv.other ro hop).2]; exact h.ale
   · rw [(h.rcv.other ro hop).2]; exact h.wfwd
 
@@ -341,7 +397,7 @@ theorem Inv.opStep {P : Params} {σ : St} {mv : List Sender.Chunk} {G : List (Bi
 theorem init_inv (P : Params) (hc : CfgOk P.cfg) (hpr : P.cfg.prEnabled = true) :
     Inv P (init P) [] [] 0 (RecvQ.start (Gen.getMaxTSNOffset P.maxBuf) (P.tsn - 1)) :=
   ⟨SenderPR.SInv.init P.cfg P.tsn P.peerRwnd hc hpr, ReceiverPR.RInv.init P.tsn P.maxBuf P.maxEntries _ _ _ _ _ _,
-   Nat.zero_le _, fun c hc => by simp [init] at hc, fun f hf => by simp [init] at hf⟩
+   Nat.zero_le _, fun c hc => by simp [init] at hc, fun f hf => by simp [init] at hf, fun f hf => by simp [init] at hf⟩
 
 /-! ## runs -/
 
